@@ -29,6 +29,8 @@ Deep == { Arr(<<Oa(Oa(N1)), Oa(N2)>>),
           Oa(Oa(Oa(N1))),
           Arr(<<Oab(N1, N2), Oab(N2, N1), Ob(N1)>>),
           Arr(<<O0>>), Oa(O0), Arr(<<O0, Oa(N1)>>), Arr(<<A0, Arr(<<N1>>)>>),
+          \* members that are present with the value null (present is not the same as non-nil)
+          Oab(Null, N1), Arr(<<Oab(Null, Null), Oa(Null)>>),
           \* keys that differ between levels: a stale/aliased key buffer of an outer object shows
           Oab(Obj(<<KV(kc, N1), KV(kd, N2)>>), Obj(<<KV(kc, N3), KV(ke, N1)>>)),
           Obj(<<KV(ka, Obj(<<KV(kd, Oa(N1)), KV(ke, N2)>>)), KV(kb, Oab(N1, N2)), KV(kc, Obj(<<KV(ka, N3), KV(ke, Sa)>>))>>) }
@@ -39,7 +41,7 @@ DocsPairs == Scalars \cup {Arr(s) : s \in SeqsUpTo(InnerP, 2)} \cup ObjsOver(Inn
 InnerT == IF DocSet = "small" THEN {N1, A0, Arr(<<N1, N2>>), Oa(N1), Oab(N2, N1), Oa(Arr(<<N1, N2>>))}
           ELSE {N1, Sa, A0, O0, Arr(<<N1, N2>>), Oa(N1), Oab(N2, N1), Oa(Arr(<<N1, N2>>))}
 DocsTriples == {N1} \cup {Arr(s) : s \in SeqsUpTo(InnerT, 2)} \cup {Oab(x, y) : x \in InnerT, y \in InnerT} \cup Deep
-DocsSpell == IF Spellings = "all" THEN {Obj(<<KV(ka, N1), KV(kE, Oa(N2))>>), Arr(<<Obj(<<KV(kE, N1)>>)>>)} ELSE {}
+DocsSpell == IF Spellings \in {"all", "all64"} THEN {Obj(<<KV(ka, N1), KV(kE, Oa(N2))>>), Arr(<<Obj(<<KV(kE, N1)>>)>>)} ELSE {}
 Docs == (IF Scope = "pairs" THEN DocsPairs ELSE DocsTriples) \cup DocsSpell
 
 Pa == Cur(<<Nm(ka)>>)   Pb == Cur(<<Nm(kb)>>)
@@ -85,7 +87,7 @@ SigmaTriples == {Nm(ka), Nm(kb), Wild, Multi(<<Nm(ka), Nm(kb)>>), Multi(<<Wild, 
                  Un(<<Idx(0)>>), Un(<<Idx(1), Idx(0)>>), Un(<<Sl(0, TRUE, 0, TRUE, -1, FALSE)>>), Un(<<Star, Idx(0)>>)}
                 \cup {Flt(q) : q \in QueriesT}
 \* non-ASCII key for the spelling checks
-SigmaSpell == IF Spellings = "all" THEN {Nm(kE), Multi(<<Nm(kE), Nm(ka)>>)} ELSE {}
+SigmaSpell == IF Spellings \in {"all", "all64"} THEN {Nm(kE), Multi(<<Nm(kE), Nm(ka)>>)} ELSE {}
 Sigma == (IF Scope = "pairs" THEN SigmaPairs ELSE SigmaTriples) \cup SigmaSpell
 
 F1 == {FF(Fn_f1), FF(Fn_fodd), FF(Fn_ferr), AF(Fn_g1), AF(Fn_gerr)}
@@ -97,7 +99,10 @@ FSeqsFull == {<<x>> : x \in F1} \cup {<<x, y>> : x \in F1, y \in F2}
 FSeqs == IF FuncSet = "small" THEN FSeqsSmall ELSE FSeqsFull
 
 AllSp == [q : {39, 34}, brk : BOOLEAN, spc : BOOLEAN, omit : BOOLEAN, plus : BOOLEAN, up : BOOLEAN]
+RECURSIVE SetToSeqSp(_)
+SetToSeqSp(S) == IF S = {} THEN <<>> ELSE LET x == CHOOSE y \in S : TRUE IN <<x>> \o SetToSeqSp(S \ {x})
 SpList == IF Spellings = "canon" THEN <<Canon>>
+          ELSE IF Spellings = "all64" THEN <<Canon>> \o SetToSeqSp(AllSp \ {Canon})
           ELSE <<Canon,
                  [Canon EXCEPT !.spc = TRUE], [Canon EXCEPT !.q = 34], [Canon EXCEPT !.brk = TRUE],
                  [Canon EXCEPT !.omit = TRUE], [Canon EXCEPT !.plus = TRUE], [Canon EXCEPT !.up = TRUE],
